@@ -7,28 +7,38 @@ State of /repo: after the `fix:` commits for `cast_dupif` (+2 bytes / +1 element
 keys (66-byte push) and `threshold` (`i < k`).
 
 What is proved here
-* T1 `witness_bounds_partial` / `dissat_bounds_partial`: whenever the model satisfier (either
-  mode, any assets) returns a stack, the library's `sat_data` / `dissat_data` EXISTS and bounds
-  its element count, its serialized size and (outside tapscript) its scriptSig size — by
-  induction over the AST (no bound on size / depth / n), `d:` wrappers, uncompressed keys and
-  every `thresh` included.  The remaining hypotheses (`good`) are: `multi_a` only in tapscript
-  with `k ≥ 1`; a child whose dissatisfaction enters the parent's satisfaction is `disOK` (not
-  an `and_v` with a dissatisfiable right child, for which the satisfier builds a
-  dissatisfaction while `ExtData::and_v` has `dissat_data: None`); `thresh` children have a
-  dissatisfaction figure.  They are needed: `andv_dissat_undershoots` is a well-typed
-  counter-example of the faithful model without them (on the real library that input trips
-  `assert!(!l_dis.has_sig)` in `sat_dissat.rs` instead — reported under C11).
-* T2 `script_size_eq`, `script_num_size_eq`, `has_free_verify_eq`, and `pk_cost_eq`:
-  `pk_cost` (the figure the script-size limits are checked against) = script size, plus a
-  documented over-estimate for `multi_a`.
-* T3 `static_ops_eq`, `opcount_partial`.
+* T1 `witness_bounds_nonmall_partial` / `dissat_bounds_nonmall_partial`: for EVERY well-typed
+  fragment (`typeOf` + the numeric invariants `SatSpec.WF`), in non-malleable mode, any assets:
+  whenever the model satisfier returns a stack, `sat_data` / `dissat_data` EXISTS and bounds its
+  element count, serialized size and (outside tapscript) scriptSig size.  No structural side
+  condition.  `witness_bytes_bound_nonmall_partial`: the same about the REAL bytes `w.map σ`
+  measured with `Spec/Bounds` (CompactSize + bytes, minimal pushes), for every realisation `σ`
+  whose elements are no longer than the library assumes (`LenOk`: signature ≤ 72 bytes, …).
+* `witness_bounds_partial` / `dissat_bounds_partial` / `witness_bytes_bound_partial`: both
+  satisfier modes, under the structural hypotheses `good` (needed in malleable mode:
+  `andv_dissat_undershoots`, `witness_bounds_full_false`).
+* `max_satisfaction_accessors_bound`, `within_resource_limits_items`, `sane_resource_check_items`:
+  the public accessors and what the declarations imply for witness items / scriptSig size.
+* T2 `script_size_eq`, `script_num_size_eq`, `has_free_verify_eq`, `pk_cost_eq`,
+  `pk_cost_ge_encoded_length`.
+* T3 `static_ops_eq`, `opcount_partial` (scripts without `multi`: the counter ends at
+  `static_ops` on ANY witness); `opcount_full` (with `multi`) is OPEN.
+* T5 `declared_op_count_le`, `op_limit_compliance_partial`,
+  `satisfaction_accepted_with_op_limit_partial` (composes with C01: satisfactions of declared
+  scripts without `multi` are accepted with the 201-opcode limit ON);
+  `exec_stack_bound_full_false`: `max_exec_stack_count` is NOT a bound (two `decide` witnesses),
+  so the stack part of `limits_full` stays open (and is false in tapscript: known finding).
 -/
 import MsVerif.Lemmas.BoundsInduct
 import MsVerif.Lemmas.BoundsSize
 import MsVerif.Lemmas.BoundsOps
+import MsVerif.Lemmas.BoundsTyped
+import MsVerif.Lemmas.BoundsBytes
+import MsVerif.Lemmas.BoundsLimit
 import MsVerif.Model.TypeCheck
 import MsVerif.Model.ExtApi
 import MsVerif.Model.Lift
+import MsVerif.Thm.C01
 
 namespace MsVerif.C09
 open MsVerif ExtData
@@ -63,6 +73,75 @@ theorem witness_size_le (ke : KeyEnv) (ctx : Ctx) (mall rootHasSig : Bool) (a : 
     ∃ d, (extOf ke ctx ms).satData = some d ∧ witnessSize w ≤ d.wSize + varintLen w.length := by
   obtain ⟨d, hd, _, c2, _⟩ := witness_bounds_partial ke ctx mall rootHasSig a ha ms hg w h
   exact ⟨d, hd, by simp only [witnessSize]; omega⟩
+
+/-! ### every well-typed script, non-malleable mode — no structural side condition -/
+
+/-- T1 for the scripts users actually have: EVERY well-typed fragment (`typeOf`, plus the numeric
+invariants `WF` that `Threshold::new` / `from_consensus` / the context rules guarantee), in
+NON-MALLEABLE mode (`Miniscript::satisfy`, `build_template`, `Plan`s), any assets: whenever the
+satisfier returns a stack, `sat_data` exists and bounds its element count, its serialized size
+and (outside tapscript) its scriptSig size.  No `good`: in this mode `minimum` never prefers an
+alternative carrying a signature over a signature-free one and `d`-typed dissatisfactions are
+signature-free (C01 `dissat_clean_nonmall`), so the figure-less `and_v` "dissatisfaction" can
+never be the one chosen.  `_partial` only in that it speaks about one of the two modes; for the
+malleable mode see `witness_bounds_partial` (needs `good`) and `witness_bounds_full_false`. -/
+theorem witness_bounds_nonmall_partial (ke : KeyEnv) (ctx : Ctx) (rootHasSig : Bool) (a : Assets)
+    (ha : AssetsOk ke ctx a) (ms : Ms) (τ : Ty) (hty : typeOf ms = some τ)
+    (hwf : SatSpec.WF ctx ms) (w : List Ph)
+    (h : (satDissat ⟨ke, ctx, false, rootHasSig, a⟩ ms).sat.stack = .stack w) :
+    ∃ d, (extOf ke ctx ms).satData = some d ∧ w.length ≤ d.wCount
+      ∧ (w.map Ph.size).sum ≤ d.wSize ∧ (ctx ≠ .tap → (w.map phSs).sum ≤ d.ssSize) := by
+  obtain ⟨d, hd, c1, c2, c3⟩ := (bound_typed ke ctx rootHasSig a ha ms τ hty hwf).1 w h
+  exact ⟨d, hd, c1, c2, fun hc => c3 (by simp [ess, hc])⟩
+
+/-- the same for the dissatisfaction of every `d`-typed fragment; the figure exists statically -/
+theorem dissat_bounds_nonmall_partial (ke : KeyEnv) (ctx : Ctx) (rootHasSig : Bool) (a : Assets)
+    (ha : AssetsOk ke ctx a) (ms : Ms) (τ : Ty) (hty : typeOf ms = some τ)
+    (hwf : SatSpec.WF ctx ms) (hd : τ.corr.dissat = true) :
+    (extOf ke ctx ms).dissatData.isSome = true ∧
+    ∀ w, (satDissat ⟨ke, ctx, false, rootHasSig, a⟩ ms).dissat.stack = .stack w →
+      ∃ d, (extOf ke ctx ms).dissatData = some d ∧ w.length ≤ d.wCount
+        ∧ (w.map Ph.size).sum ≤ d.wSize ∧ (ctx ≠ .tap → (w.map phSs).sum ≤ d.ssSize) := by
+  obtain ⟨h1, h2⟩ := (bound_typed ke ctx rootHasSig a ha ms τ hty hwf).2 hd
+  refine ⟨h2, fun w h => ?_⟩
+  obtain ⟨d, hd', c1, c2, c3⟩ := h1 w h
+  exact ⟨d, hd', c1, c2, fun hc => c3 (by simp [ess, hc])⟩
+
+/-! ### from the placeholder table to bytes -/
+
+/-- T1 in BYTES.  `σ` realises the placeholders (`Placeholder::satisfy_self`); `LenOk σ p`
+(Lemmas/BoundsBytes.lean) says the real element is no longer than the library assumes for its
+kind — ECDSA signature ≤ 72 bytes with its sighash byte, Schnorr signature as long as recorded,
+key one byte shorter than its recorded push, preimage 32 bytes, `1` = `01`, `0` = empty.  Then
+the REAL witness `w.map σ` has at most `max_witness_stack_count` elements, serializes
+(`Spec/Bounds.itemsSize`: CompactSize + bytes per element) to at most
+`max_witness_stack_size`, and its minimal-push scriptSig (`Spec/Bounds.scriptSigPushSize`) is
+at most `max_script_sig_size`. -/
+theorem witness_bytes_bound_nonmall_partial (ke : KeyEnv) (ctx : Ctx) (rootHasSig : Bool) (a : Assets)
+    (ha : AssetsOk ke ctx a) (ms : Ms) (τ : Ty) (hty : typeOf ms = some τ)
+    (hwf : SatSpec.WF ctx ms) (w : List Ph)
+    (h : (satDissat ⟨ke, ctx, false, rootHasSig, a⟩ ms).sat.stack = .stack w)
+    (σ : Ph → Bytes) (hlen : ∀ p ∈ w, LenOk σ p) :
+    ∃ d, (extOf ke ctx ms).satData = some d ∧ (w.map σ).length ≤ d.wCount
+      ∧ Bounds.itemsSize (w.map σ) ≤ d.wSize
+      ∧ (ctx ≠ .tap → Bounds.scriptSigPushSize (w.map σ) ≤ d.ssSize) := by
+  obtain ⟨d, hd, c1, c2, c3⟩ := witness_bounds_nonmall_partial ke ctx rootHasSig a ha ms τ hty hwf w h
+  obtain ⟨b1, b2⟩ := witness_le_table σ w hlen
+  refine ⟨d, hd, by simpa using c1, ?_, fun hc => ?_⟩
+  · exact Nat.le_trans b1 c2
+  · exact Nat.le_trans b2 (c3 hc)
+
+/-- the byte version under `good` (both satisfier modes) -/
+theorem witness_bytes_bound_partial (ke : KeyEnv) (ctx : Ctx) (mall rootHasSig : Bool) (a : Assets)
+    (ha : AssetsOk ke ctx a) (ms : Ms) (hg : good ke ctx ms = true) (w : List Ph)
+    (h : (satDissat ⟨ke, ctx, mall, rootHasSig, a⟩ ms).sat.stack = .stack w)
+    (σ : Ph → Bytes) (hlen : ∀ p ∈ w, LenOk σ p) :
+    ∃ d, (extOf ke ctx ms).satData = some d ∧ (w.map σ).length ≤ d.wCount
+      ∧ Bounds.itemsSize (w.map σ) ≤ d.wSize
+      ∧ (ctx ≠ .tap → Bounds.scriptSigPushSize (w.map σ) ≤ d.ssSize) := by
+  obtain ⟨d, hd, c1, c2, c3⟩ := witness_bounds_partial ke ctx mall rootHasSig a ha ms hg w h
+  obtain ⟨b1, b2⟩ := witness_le_table σ w hlen
+  exact ⟨d, hd, by simpa using c1, Nat.le_trans b1 c2, fun hc => Nat.le_trans b2 (c3 hc)⟩
 
 /-! ### the public accessors and declarations (`Model/ExtApi.lean`, `Model/Lift.lean`) -/
 
@@ -161,6 +240,64 @@ theorem assets0_ok (ctx : Ctx) (keys : List Key) : AssetsOk ke0 ctx (assets0 key
   rawPk _ _ h := by simp [assets0] at h
   rawEcdsa _ _ h := by simp [assets0] at h
 
+/-- assets with every preimage known -/
+def assetsP (keys : List Key) : Assets := { assets0 keys with preimage := fun _ _ => true }
+
+theorem assetsP_ok (ctx : Ctx) (keys : List Key) : AssetsOk ke0 ctx (assetsP keys) where
+  schnorr k sz h := by simp only [assetsP, assets0] at h; split at h <;> simp_all
+  rawSchnorr _ _ _ h := by simp [assetsP, assets0] at h
+  rawPk _ _ h := by simp [assetsP, assets0] at h
+  rawEcdsa _ _ h := by simp [assetsP, assets0] at h
+
+/-- `andor(thresh(2,pk(0),s:pk(1),s:pk(2)),
+          or_i(multi(2,3,4,5),and_v(v:sha256(0),and_v(v:pkh(6),dv:older(144)))),pk(7))`:
+threshold, multisig, hash, relative lock, `d:` wrapper, nesting depth 5 -/
+def exTyped : Ms :=
+  .andOr (.thresh 2 (.cons (.check (.pkK 0)) (.cons (.swap (.check (.pkK 1))) (.cons (.swap (.check (.pkK 2))) .nil))))
+    (.orI (.multi 2 [3, 4, 5]) (.andV (.verify (.hash .sha256 0))
+      (.andV (.verify (.check (.pkH 6))) (.dupIf (.verify (.older 144))))))
+    (.check (.pkK 7))
+
+theorem exTyped_typed : ∃ τ, typeOf exTyped = some τ := by
+  cases h : typeOf exTyped with
+  | none => exact absurd h (by decide)
+  | some τ => exact ⟨τ, rfl⟩
+
+theorem exTyped_wf : SatSpec.WF .segwitv0 exTyped := by
+  simp [exTyped, SatSpec.WF, SatSpec.WFs, MsList.length]
+
+/-- maximal-length real bytes: 72-byte ECDSA signatures, keys as long as their recorded push -/
+def σ0 : Ph → Bytes
+  | .pubkey _ s | .pubkeyHash _ s => List.replicate (s - 1) 2
+  | .ecdsaSig _ | .ecdsaSigPkh _ => List.replicate 72 1
+  | .schnorrSig _ s | .schnorrSigPkh _ s => List.replicate s 1
+  | .preimage _ _ => List.replicate 32 9
+  | .hashDissat => List.replicate 32 0
+  | .pushOne => [1]
+  | .pushZero => []
+
+/-- non-vacuity of `witness_bounds_nonmall_partial` / `witness_bytes_bound_nonmall_partial`:
+with signatures for keys 0, 1, 6, the preimage and the lock met, the non-malleable satisfier
+returns an 8-element witness for `exTyped`; every hypothesis holds, and the count figure (8) is
+attained -/
+example :
+    (satDissat ⟨ke0, .segwitv0, false, true, assetsP [0, 1, 6]⟩ exTyped).sat.stack
+      = .stack [.pushOne, .ecdsaSig 6, .pubkey 6 34, .preimage .sha256 0, .pushZero, .pushZero,
+          .ecdsaSig 1, .ecdsaSig 0]
+    ∧ ∃ d, (extOf ke0 .segwitv0 exTyped).satData = some d
+      ∧ ([Ph.pushOne, .ecdsaSig 6, .pubkey 6 34, .preimage .sha256 0, .pushZero, .pushZero,
+          .ecdsaSig 1, .ecdsaSig 0].map σ0).length ≤ d.wCount
+      ∧ Bounds.itemsSize ([Ph.pushOne, .ecdsaSig 6, .pubkey 6 34, .preimage .sha256 0, .pushZero,
+          .pushZero, .ecdsaSig 1, .ecdsaSig 0].map σ0) ≤ d.wSize
+      ∧ ((Ctx.segwitv0 : Ctx) ≠ .tap → Bounds.scriptSigPushSize ([Ph.pushOne, .ecdsaSig 6, .pubkey 6 34,
+          .preimage .sha256 0, .pushZero, .pushZero, .ecdsaSig 1, .ecdsaSig 0].map σ0) ≤ d.ssSize) := by
+  have hs : (satDissat ⟨ke0, .segwitv0, false, true, assetsP [0, 1, 6]⟩ exTyped).sat.stack
+      = .stack [.pushOne, .ecdsaSig 6, .pubkey 6 34, .preimage .sha256 0, .pushZero, .pushZero,
+          .ecdsaSig 1, .ecdsaSig 0] := by decide
+  obtain ⟨τ, hτ⟩ := exTyped_typed
+  exact ⟨hs, witness_bytes_bound_nonmall_partial ke0 .segwitv0 true (assetsP [0, 1, 6]) (assetsP_ok _ _)
+    exTyped τ hτ exTyped_wf _ hs σ0 (by simp [LenOk, σ0])⟩
+
 /-- `or_d(or_i(c:raw_pkh(0),and_v(v:pk(1),pk(2))),pk(3))` -/
 def msAndVDis : Ms :=
   .orD (.orI (.check (.rawPkH 0)) (.andV (.verify (.check (.pkK 1))) (.check (.pkK 2)))) (.check (.pkK 3))
@@ -250,42 +387,248 @@ theorem static_ops_eq (ke : KeyEnv) (ctx : Ctx) (ms : Ms) (h : opsOk ms = true) 
     (extOf ke ctx ms).staticOps = codeCount (encode ke ctx ms) := staticOps_eq ke ctx ms h
 
 /-- T3 for scripts without `multi`: on ANY witness and in any environment, every run of the
-encoded script that does not fail ends with Core's `nOpCount` = `static_ops` (every non-push
-opcode counts, executed or not), hence `≤ static_ops + max_exec_op_count`, the figure compared
-with `MAX_OPS_PER_SCRIPT`. -/
+encoded script that does not fail ends with Core's `nOpCount` EQUAL to `static_ops` (every
+non-push opcode counts, executed or not; `max_exec_op_count` is 0 for these scripts).
+What is missing (`opcount_full`): scripts with `multi`, where each EXECUTED CHECKMULTISIG adds
+its number of keys and the figure `max_exec_op_count` follows the satisfier's path. -/
 theorem opcount_partial (env : Script.Env) (ke : KeyEnv) (ctx : Ctx) (ms : Ms)
     (h1 : opsOk ms = true) (h2 : multiFree ms = true) (s s' : Script.State)
     (hrun : Script.run env (encode ke ctx ms) s = .ok s') :
-    s'.core.ops = s.core.ops + (extOf ke ctx ms).staticOps
-    ∧ ∀ d, (extOf ke ctx ms).satData = some d →
-        s'.core.ops ≤ s.core.ops + ((extOf ke ctx ms).staticOps + d.execOps) := by
+    s'.core.ops = s.core.ops + (extOf ke ctx ms).staticOps := by
   have hall : (encode ke ctx ms).all (fun op => !isMultisig op) = true := by
     rw [List.all_eq_true]; intro op hop; simp [encode_noMs ke ctx ms h2 op hop]
   have := run_ops (encode ke ctx ms) s s' hall hrun
   rw [← static_ops_eq ke ctx ms h1] at this
-  exact ⟨this, fun d _ => by omega⟩
+  exact this
 
-/-- the full statement: also with `multi`, where each EXECUTED CHECKMULTISIG adds its number of
-keys; decided on every run by the `J bound` judge (`ops`), not proved -/
+/-- the full statement (all fragments incl. `multi`, on the satisfactions the satisfier
+produces): OPEN — it needs an opcode-accounting version of C01's soundness induction (which
+branch executes depends on the witness); decided on every run by the `J bound` judge (`ops`). -/
 def opcount_full : Prop :=
-  ∀ (env : Script.Env) (ke : KeyEnv) (ctx : Ctx) (ms : Ms) (stack : List Script.Bytes) (s' : Script.State)
-    (d : SatData), ctx ≠ .tap → (typeOf ms).isSome = true → (extOf ke ctx ms).satData = some d →
-    Script.run env (encode ke ctx ms) (Script.State.init stack) = .ok s' →
-    s'.core.ops ≤ (extOf ke ctx ms).staticOps + d.execOps
+  ∀ (env : Script.Env) (σ : Ph → Bytes) (cfg : SatCfg) (ms : Ms) (τ : Ty) (w : List Ph) (d : SatData)
+    (s' : Script.State),
+    SatSpec.EnvOk env cfg.ctx → SatSpec.Agrees env cfg.env cfg.assets σ → SatSpec.WF cfg.ctx ms →
+    typeOf ms = some τ → cfg.ctx ≠ .tap → (satDissat cfg ms).sat.stack = .stack w →
+    (extOf cfg.env cfg.ctx ms).satData = some d →
+    Script.run env (encode cfg.env cfg.ctx ms) (Script.State.init (SatSpec.stk σ w)) = .ok s' →
+    s'.core.ops ≤ (extOf cfg.env cfg.ctx ms).staticOps + d.execOps
 
 example : opsOk (.andOr (.check (.pkK 0)) (.orI (.hash .sha256 0) (.andV (.verify (.check (.pkH 6))) (.older 144)))
     (.thresh 1 (.cons (.check (.pkK 1)) (.cons (.swap (.check (.pkK 2))) .nil)))) = true
   ∧ multiFree (.andOr (.check (.pkK 0)) (.orI (.hash .sha256 0) (.andV (.verify (.check (.pkH 6))) (.older 144)))
     (.thresh 1 (.cons (.check (.pkK 1)) (.cons (.swap (.check (.pkK 2))) .nil)))) = true := by decide
 
-/-! ## T5: limits — judged on every run, not proved
+/-! ## T5: limits -/
 
-`limits_full`: a script the library declares within the limits of its context
-(`check_local_validity`) is accepted by the Script semantics with all limits enabled (ops ≤ 201,
-stack + altstack ≤ 1000, elements ≤ 520) and its produced satisfactions respect the script-size,
-witness-item and scriptSig-size limits.  Decided for every satisfaction the library produces by
-the `J bound` lines (`lim=1` ⇒ executed with `Flags.opLimit`/`stackLimits` on; peak depth from
-`runPeak`).  `max_exec_stack_count` is known to be inexact (CHECKMULTISIG's pushes of k and n,
-the accumulator during a `thresh` dissatisfaction), which is why no theorem is attempted. -/
+/-- what `within_resource_limits` declares about opcodes outside tapscript:
+`static_ops + max_exec_op_count ≤ 201` -/
+theorem declared_op_count_le (ke : KeyEnv) (ctx : Ctx) (ms : Ms) (hc : ctx ≠ .tap)
+    (hl : Lift.withinResourceLimits ke ctx ms = true) :
+    ∃ d, (extOf ke ctx ms).satData = some d ∧ (extOf ke ctx ms).staticOps + d.execOps ≤ 201 := by
+  simp only [Lift.withinResourceLimits, Bool.and_eq_true] at hl
+  have h := hl.1.2
+  have hop : Lift.opCountOk (extOf ke ctx ms) = true := by
+    cases ctx <;> first | exact absurd rfl hc | simpa [Lift.localConsensusOk] using h
+  unfold Lift.opCountOk at hop
+  cases hd : (extOf ke ctx ms).satData with
+  | none => simp [ExtData.satOpCount, hd] at hop
+  | some d =>
+    simp [ExtData.satOpCount, hd, Lift.MAX_OPS_PER_SCRIPT] at hop
+    exact ⟨d, rfl, hop⟩
+
+/-- Limit compliance, opcode part, for scripts without `multi`: if the library declares the
+script within its limits (`within_resource_limits`), executing it with the 201-opcode limit
+ENFORCED gives exactly the verdict of the limit-free execution — on any stack.  (The counter
+ends at `static_ops ≤ 201`, `opcount_partial`, and only grows.) -/
+theorem op_limit_compliance_partial (env : Script.Env) (ke : KeyEnv) (ctx : Ctx) (ms : Ms)
+    (h1 : opsOk ms = true) (h2 : multiFree ms = true) (hc : ctx ≠ .tap)
+    (hl : Lift.withinResourceLimits ke ctx ms = true) (stack : List Script.Bytes) :
+    Script.accepts (withOpLimit env) (encode ke ctx ms) stack
+      = Script.accepts env (encode ke ctx ms) stack := by
+  obtain ⟨d, _, hle⟩ := declared_op_count_le ke ctx ms hc hl
+  have hall : (encode ke ctx ms).all (fun op => !isMultisig op) = true := by
+    rw [List.all_eq_true]; intro op hop; simp [encode_noMs ke ctx ms h2 op hop]
+  have hrun := run_opLimit env (encode ke ctx ms) (Script.State.init stack) hall
+    (by rw [← static_ops_eq ke ctx ms h1]; simp [Script.State.init]; omega)
+  unfold Script.accepts
+  rw [hrun]
+
+/-- …composed with C01: every satisfaction the satisfier produces for such a script is
+ACCEPTED by the flat interpreter with the opcode limit on (stack limits still off: see below) -/
+theorem satisfaction_accepted_with_op_limit_partial {env : Script.Env} {σ : Ph → Bytes} {cfg : SatCfg}
+    (henv : SatSpec.EnvOk env cfg.ctx) (hag : SatSpec.Agrees env cfg.env cfg.assets σ)
+    (ms : Ms) (τ : Ty) (hwf : SatSpec.WF cfg.ctx ms) (hty : typeOf ms = some τ)
+    (hB : τ.corr.base = .B) (w : List Ph) (hs : (satDissat cfg ms).sat.stack = .stack w)
+    (hlk : SatSpec.LocksMet env (satDissat cfg ms).sat)
+    (h1 : opsOk ms = true) (h2 : multiFree ms = true) (hc : cfg.ctx ≠ .tap)
+    (hl : Lift.withinResourceLimits cfg.env cfg.ctx ms = true) :
+    Script.accepts (withOpLimit env) (encode cfg.env cfg.ctx ms) (SatSpec.stk σ w) = true := by
+  rw [op_limit_compliance_partial env cfg.env cfg.ctx ms h1 h2 hc hl]
+  exact C01.top_level_sat_sound_exec henv hag ms τ hwf hty hB w hs hlk
+
+/-! ### a small concrete world of our own (no dependence on upstream example names) -/
+
+namespace W
+open MsVerif.Script MsVerif.SatSpec
+
+/-- 33-byte "compressed keys" `02 00…00 k` -/
+def ser (k : Key) : Bytes := 2 :: (List.replicate 31 0 ++ [UInt8.ofNat k])
+/-- 32-byte preimages `09…09 h` -/
+def pre (h : Nat) : Bytes := List.replicate 31 9 ++ [UInt8.ofNat h]
+/-- toy hash: append a byte (injective) -/
+def toyHash (b : Bytes) : Bytes := b ++ [7]
+
+def ke : KeyEnv where
+  ser := ser
+  sortKey := ser
+  pkh k := toyHash (ser k)
+  rawPkh h := toyHash (ser h)
+  hashVal _ h := toyHash (pre h)
+
+/-- segwit-v0 standardness flags, limits off; a signature is valid iff it is `key ++ [1]` -/
+def tEnv (lockTime seq : Nat) : Env where
+  flags := ⟨false, true, true, true, true, false, false⟩
+  sigOk pk sig := sig == pk ++ [1]
+  hash _ b := toyHash b
+  nLockTime := lockTime
+  nSequence := seq
+  txVersion := 2
+
+def tσ : Ph → Bytes
+  | .pubkey k _ => ser k
+  | .pubkeyHash h _ => ser h
+  | .ecdsaSig k => ser k ++ [1]
+  | .ecdsaSigPkh h => ser h ++ [1]
+  | .schnorrSig k _ => ser k ++ [1]
+  | .schnorrSigPkh h _ => ser h ++ [1]
+  | .preimage _ h => pre h
+  | .hashDissat => List.replicate 32 0
+  | .pushOne => [1]
+  | .pushZero => []
+
+def pk (k : Key) : Ms := .check (.pkK k)
+/-- `and_v(v:pk(K0),or_d(pk(K1),older(144)))` -/
+def ms : Ms := .andV (.verify (pk 0)) (.orD (pk 1) (.older 144))
+def ty : Ty := ⟨⟨.B, .anyNonZero, false, false⟩, ⟨.none, true, true⟩⟩
+
+/-- signatures for K0 and K1, nothing else -/
+def assets1 : Assets :=
+  ⟨fun k => k == 0 || k == 1, fun _ => none, fun _ => none, fun _ => none, fun _ => none,
+   fun _ _ => false, fun _ => false, fun _ => false⟩
+def cfg1 : SatCfg := ⟨ke, .segwitv0, false, true, assets1⟩
+
+end W
+
+section world
+open W MsVerif.Script MsVerif.SatSpec
+
+theorem wEnvOk (lt sq : Nat) : EnvOk (tEnv lt sq) .segwitv0 := ⟨rfl, rfl, rfl⟩
+
+theorem wKeyOk (lt sq : Nat) (k : Key) : pubkeyOk (tEnv lt sq) (ser k) = true := by
+  simp [pubkeyOk, tEnv, ser]
+
+/-- every signature / preimage the satisfier could hold is genuine here: `Agrees` for EVERY
+asset set -/
+theorem wAgrees (lt sq : Nat) (a : Assets) : Agrees (tEnv lt sq) ke a tσ where
+  pushOne := rfl
+  pushZero := rfl
+  hashDissat := rfl
+  keyShape := wKeyOk lt sq
+  pkh _ := rfl
+  pubkey _ _ := rfl
+  ecdsa k _ := ⟨by simp [tσ], by simp [tEnv, tσ, ke]⟩
+  schnorr k _ _ := ⟨by simp [tσ], by simp [tEnv, tσ, ke]⟩
+  rawPk h _ _ := ⟨rfl, wKeyOk lt sq h⟩
+  rawEcdsa h _ _ _ := ⟨by simp [tσ], by simp [tEnv, tσ]⟩
+  rawSchnorr h _ _ _ _ := ⟨by simp [tσ], by simp [tEnv, tσ]⟩
+  preimage _ h _ := ⟨by simp [tσ, pre], rfl⟩
+  zeroNoPreimage _ h := by
+    intro e
+    have := congrArg List.head? e
+    simp [tEnv, ke, toyHash, pre, List.replicate] at this
+  sizeOk p := by cases p <;> simp [tσ, ser, pre]
+
+theorem wTyped : typeOf W.ms = some W.ty := by decide
+theorem wWf : WF .segwitv0 W.ms := by simp [W.ms, W.pk, WF]
+
+end world
+
+/-- `and_v(v:pk(K0),or_d(pk(K1),older(144)))` in the world `W`: declared within limits, no
+`multi`; its satisfaction is accepted with the opcode limit enforced -/
+example : Script.accepts (withOpLimit (W.tEnv 0 0)) (encode W.ke .segwitv0 W.ms)
+    (SatSpec.stk W.tσ [.ecdsaSig 1, .ecdsaSig 0]) = true :=
+  satisfaction_accepted_with_op_limit_partial (cfg := W.cfg1) (wEnvOk 0 0) (wAgrees 0 0 _)
+    W.ms W.ty wWf wTyped rfl _ (by decide) (by simp [SatSpec.LocksMet]; decide)
+    (by decide) (by decide) (by decide) (by decide)
+
+/-! ### execution stack depth: the figure is NOT a bound -/
+
+/-- "`max_exec_stack_count` bounds what the execution of a produced satisfaction puts on the
+stacks beyond the witness itself" … -/
+def exec_stack_bound_full : Prop :=
+  ∀ (env : Script.Env) (σ : Ph → Bytes) (cfg : SatCfg) (ms : Ms) (τ : Ty) (w : List Ph) (d : SatData)
+    (s' : Script.State) (peak : Nat),
+    SatSpec.EnvOk env cfg.ctx → SatSpec.Agrees env cfg.env cfg.assets σ → SatSpec.WF cfg.ctx ms →
+    typeOf ms = some τ → (satDissat cfg ms).sat.stack = .stack w →
+    (extOf cfg.env cfg.ctx ms).satData = some d →
+    Script.runPeak env (encode cfg.env cfg.ctx ms) (Script.State.init (SatSpec.stk σ w)) w.length
+      = .ok (s', peak) →
+    peak ≤ w.length + d.execStack
+
+def peakOf : Except Script.Err (Script.State × Nat) → Option Nat
+  | .ok (_, p) => some p
+  | .error _ => none
+
+/-- `thresh(1,andor(0,1,0),s:sha256(H))` -/
+def msStackT : Ms := .thresh 1 (.cons (.andOr .fls .tru .fls) (.cons (.swap (.hash .sha256 0)) .nil))
+
+/-- … is false.  Witness 1 (`ExtData::threshold` decides "first child" by the SORTED position):
+the unsatisfiable first child leaves its `0` on the stack while `s:sha256` runs: peak 4, but
+1 witness element + `max_exec_stack_count` 2 = 3.  Witness 2 (F12): `multi(1,K0,K1)` ignores
+the pushes of `k` and `n`: peak 6, but 2 + 2 = 4. -/
+theorem exec_stack_witnesses :
+    (satDissat ⟨W.ke, .segwitv0, false, false, assetsP []⟩ msStackT).sat.stack = .stack [.preimage .sha256 0]
+    ∧ (extOf W.ke .segwitv0 msStackT).satData = some ⟨33, 1, 33, 2, 0⟩
+    ∧ peakOf (Script.runPeak (W.tEnv 0 0) (encode W.ke .segwitv0 msStackT)
+        (Script.State.init (SatSpec.stk W.tσ [.preimage .sha256 0])) 1) = some 4
+    ∧ (extOf W.ke .segwitv0 (.multi 1 [0, 1])).satData = some ⟨74, 2, 74, 2, 2⟩
+    ∧ peakOf (Script.runPeak (W.tEnv 0 0) (encode W.ke .segwitv0 (.multi 1 [0, 1]))
+        (Script.State.init (SatSpec.stk W.tσ [.pushZero, .ecdsaSig 0])) 2) = some 6 := by
+  decide +kernel
+
+theorem exec_stack_bound_full_false : ¬ exec_stack_bound_full := by
+  intro h
+  obtain ⟨h1, h2, h3, _, _⟩ := exec_stack_witnesses
+  cases hr : Script.runPeak (W.tEnv 0 0) (encode W.ke .segwitv0 msStackT)
+      (Script.State.init (SatSpec.stk W.tσ [.preimage .sha256 0])) 1 with
+  | error e => rw [hr] at h3; cases h3
+  | ok r =>
+    obtain ⟨s', peak⟩ := r
+    rw [hr] at h3
+    have hp : peak = 4 := by simpa [peakOf] using h3
+    have := h (W.tEnv 0 0) W.tσ ⟨W.ke, .segwitv0, false, false, assetsP []⟩ msStackT
+      _ [.preimage .sha256 0] _ s' peak (wEnvOk 0 0) (wAgrees 0 0 _)
+      (by simp [msStackT, SatSpec.WF, SatSpec.WFs, MsList.length]) (Option.get_mem (by decide : (typeOf msStackT).isSome = true)) h1 h2 hr
+    simp [hp] at this
+
+/-! ### the full limit statement
+
+`limits_full`: a script the library declares within the limits of its context is accepted with
+ALL limits enforced (ops ≤ 201, stack + altstack ≤ 1000, pushes ≤ 520) on every satisfaction the
+satisfier produces.  OPEN, and false as it stands in tapscript: the stack part would have to go
+through `max_exec_stack_count`, which is not a bound (`exec_stack_bound_full_false`; the known
+finding `and_v(v:thresh(1,andor(0,1,0),s:sha256),multi_a(1,<997 keys>))` is declared within
+limits and reaches 1001 elements).  Proved parts: the opcode limit for scripts without `multi`
+(`op_limit_compliance_partial`, composing with C01's acceptance theorem), the witness-item and
+scriptSig-size limits (`within_resource_limits_items`, `sane_resource_check_items`), the script
+size (`pk_cost_ge_encoded_length`).  Everything else is decided on every run by `J bound`. -/
+def limits_full : Prop :=
+  ∀ (env : Script.Env) (σ : Ph → Bytes) (cfg : SatCfg) (ms : Ms) (τ : Ty) (w : List Ph),
+    SatSpec.EnvOk env cfg.ctx → SatSpec.Agrees env cfg.env cfg.assets σ → SatSpec.WF cfg.ctx ms →
+    typeOf ms = some τ → τ.corr.base = .B → (satDissat cfg ms).sat.stack = .stack w →
+    SatSpec.LocksMet env (satDissat cfg ms).sat →
+    Lift.withinResourceLimits cfg.env cfg.ctx ms = true →
+    Script.accepts { env with flags := { env.flags with opLimit := true, stackLimits := true } }
+      (encode cfg.env cfg.ctx ms) (SatSpec.stk σ w) = true
 
 end MsVerif.C09
